@@ -970,4 +970,383 @@ theorem keys_collapseInto (fs out : List (Str × V)) :
       · simp [hq]
 
 
+
+/-! ## `-S`, preparation of the routes -/
+
+
+/-! ### membership through collapse / sort -/
+
+theorem mem_replaceSlot (k : Str) (x : V) (out : List (Str × V)) (f : Str × V) (h : f ∈ replaceSlot k x out) :
+    f = (k, x) ∨ f ∈ out := by
+  induction out with
+  | nil => simp [replaceSlot] at h
+  | cons g out ih =>
+    obtain ⟨k', x'⟩ := g
+    simp only [replaceSlot] at h
+    split at h
+    · simp only [List.mem_cons] at h ⊢
+      rcases h with h | h
+      · exact Or.inl h
+      · exact Or.inr (Or.inr h)
+    · simp only [List.mem_cons] at h ⊢
+      rcases h with h | h
+      · exact Or.inr (Or.inl h)
+      · rcases ih h with h | h
+        · exact Or.inl h
+        · exact Or.inr (Or.inr h)
+
+theorem mem_collapseInto (fs out : List (Str × V)) (f : Str × V) (h : f ∈ collapseInto out fs) : f ∈ out ∨ f ∈ fs := by
+  induction fs generalizing out with
+  | nil => exact Or.inl (by simpa [collapseInto] using h)
+  | cons g fs ih =>
+    obtain ⟨k, x⟩ := g
+    simp only [collapseInto] at h
+    split at h
+    · rcases ih _ h with h | h
+      · rcases mem_replaceSlot _ _ _ _ h with h | h
+        · exact Or.inr (by simp [h])
+        · exact Or.inl h
+      · exact Or.inr (List.mem_cons_of_mem _ h)
+    · rcases ih _ h with h | h
+      · simp only [List.mem_append, List.mem_singleton] at h
+        rcases h with h | h
+        · exact Or.inl h
+        · exact Or.inr (by simp [h])
+      · exact Or.inr (List.mem_cons_of_mem _ h)
+
+theorem mem_insertField (f : Str × V) (gs : List (Str × V)) (g : Str × V) :
+    g ∈ insertField f gs ↔ g = f ∨ g ∈ gs := by
+  induction gs with
+  | nil => simp [insertField]
+  | cons h gs ih =>
+    simp only [insertField]
+    split
+    · simp
+    · simp only [List.mem_cons, ih]
+      constructor
+      · rintro (a | a | a)
+        · exact Or.inr (Or.inl a)
+        · exact Or.inl a
+        · exact Or.inr (Or.inr a)
+      · rintro (a | a | a)
+        · exact Or.inr (Or.inl a)
+        · exact Or.inl a
+        · exact Or.inr (Or.inr a)
+
+theorem mem_sortFields (fs : List (Str × V)) (g : Str × V) : g ∈ sortFields fs ↔ g ∈ fs := by
+  induction fs with
+  | nil => simp [sortFields]
+  | cons f fs ih => simp [sortFields, mem_insertField, ih]
+
+/-! ### the key order -/
+
+theorem char_eq_of_toNat (a b : Char) (h : a.toNat = b.toNat) : a = b := by
+  rw [← Char.ofNat_toNat a, ← Char.ofNat_toNat b, h]
+
+/-- trichotomy of `keyLt` (lexicographic by scalar value) -/
+theorem keyLt_total (a b : Key) (hne : a ≠ b) (h : keyLt a b = false) : keyLt b a = true := by
+  induction a generalizing b with
+  | nil =>
+    cases b with
+    | nil => exact absurd rfl hne
+    | cons y ys => simp [keyLt] at h
+  | cons x xs ih =>
+    cases b with
+    | nil => simp [keyLt]
+    | cons y ys =>
+      simp only [keyLt, Bool.or_eq_false_iff, decide_eq_false_iff_not, Bool.and_eq_false_iff] at h
+      simp only [keyLt, Bool.or_eq_true, decide_eq_true_eq, Bool.and_eq_true]
+      obtain ⟨h1, h2⟩ := h
+      by_cases hxy : x.toNat = y.toNat
+      · right
+        refine ⟨hxy.symm, ih ys ?_ ?_⟩
+        · intro e; exact hne (by rw [char_eq_of_toNat x y hxy, e])
+        · rcases h2 with h2 | h2
+          · exact absurd hxy h2
+          · exact h2
+      · left; omega
+
+/-- head condition of a chain -/
+def headLt (k : Key) : List (Str × V) → Prop
+  | [] => True
+  | g :: _ => keyLt k g.1.cs = true
+
+/-- keys strictly increasing from one field to the next -/
+def ChainLt : List (Str × V) → Prop
+  | [] => True
+  | f :: gs => headLt f.1.cs gs ∧ ChainLt gs
+
+theorem chain_insertField (f : Str × V) (gs : List (Str × V)) (hc : ChainLt gs) (hn : f.1.cs ∉ keysOf gs) :
+    ChainLt (insertField f gs) ∧ ∀ k, keyLt k f.1.cs = true → headLt k gs → headLt k (insertField f gs) := by
+  induction gs with
+  | nil => simp [insertField, ChainLt, headLt]
+  | cons g gs ih =>
+    simp only [insertField]
+    have hn' : f.1.cs ≠ g.1.cs ∧ f.1.cs ∉ keysOf gs := by
+      simpa [keysOf, List.mem_cons, not_or] using hn
+    cases hlt : keyLt f.1.cs g.1.cs with
+    | true =>
+      simp only [↓reduceIte]
+      exact ⟨⟨hlt, hc⟩, fun k hk _ => hk⟩
+    | false =>
+      simp only [Bool.false_eq_true, ↓reduceIte]
+      have hgf : keyLt g.1.cs f.1.cs = true := keyLt_total _ _ hn'.1 hlt
+      obtain ⟨ih1, ih2⟩ := ih hc.2 hn'.2
+      exact ⟨⟨ih2 _ hgf hc.1, ih1⟩, fun k _ hkg => hkg⟩
+
+theorem keysOf_mem (fs : List (Str × V)) (q : Key) : q ∈ keysOf fs ↔ ∃ f ∈ fs, f.1.cs = q := by
+  simp [keysOf]
+
+theorem chain_sortFields (fs : List (Str × V)) (hn : (keysOf fs).Nodup) : ChainLt (sortFields fs) := by
+  induction fs with
+  | nil => simp [sortFields, ChainLt]
+  | cons f fs ih =>
+    simp only [keysOf, List.map_cons, List.nodup_cons] at hn
+    simp only [sortFields]
+    refine (chain_insertField f _ (ih hn.2) ?_).1
+    intro hmem
+    rw [keysOf_mem] at hmem
+    obtain ⟨g, hg, hgk⟩ := hmem
+    rw [mem_sortFields] at hg
+    exact hn.1 ((keysOf_mem fs _).2 ⟨g, hg, hgk⟩)
+
+
+
+/-! ### deep predicates -/
+
+mutual
+  /-- every object of the value has strictly increasing keys -/
+  def SortedV : V → Prop
+    | .arr xs => SortedL xs
+    | .obj fs => ChainLt fs ∧ SortedFs fs
+    | _ => True
+  def SortedL : List V → Prop
+    | [] => True
+    | x :: xs => SortedV x ∧ SortedL xs
+  def SortedFs : List (Str × V) → Prop
+    | [] => True
+    | (_, x) :: fs => SortedV x ∧ SortedFs fs
+end
+
+mutual
+  /-- no object of the value repeats a key -/
+  def NodupV : V → Prop
+    | .arr xs => NodupL xs
+    | .obj fs => (keysOf fs).Nodup ∧ NodupFs fs
+    | _ => True
+  def NodupL : List V → Prop
+    | [] => True
+    | x :: xs => NodupV x ∧ NodupL xs
+  def NodupFs : List (Str × V) → Prop
+    | [] => True
+    | (_, x) :: fs => NodupV x ∧ NodupFs fs
+end
+
+theorem sortedFs_iff (fs : List (Str × V)) : SortedFs fs ↔ ∀ f ∈ fs, SortedV f.2 := by
+  induction fs with
+  | nil => simp [SortedFs]
+  | cons f fs ih => obtain ⟨k, x⟩ := f; simp [SortedFs, ih]
+
+theorem nodupFs_iff (fs : List (Str × V)) : NodupFs fs ↔ ∀ f ∈ fs, NodupV f.2 := by
+  induction fs with
+  | nil => simp [NodupFs]
+  | cons f fs ih => obtain ⟨k, x⟩ := f; simp [NodupFs, ih]
+
+theorem wfFields_iff (fs : List (Str × V)) : wfFields fs = true ↔ ∀ f ∈ fs, f.1.wf = true ∧ f.2.wf = true := by
+  induction fs with
+  | nil => simp [wfFields]
+  | cons f fs ih => obtain ⟨k, x⟩ := f; simp [wfFields, ih, and_assoc]
+
+theorem keysOf_sortDeepFields (fs : List (Str × V)) : keysOf (sortDeepFields fs) = keysOf fs := by
+  induction fs with
+  | nil => rfl
+  | cons f fs ih => obtain ⟨k, x⟩ := f; simp only [sortDeepFields, keysOf_cons, ih]
+
+theorem keysOf_ownedFields (fs : List (Str × V)) : keysOf (ownedFields fs) = keysOf fs := by
+  induction fs with
+  | nil => rfl
+  | cons f fs ih => obtain ⟨k, x⟩ := f; simp only [ownedFields, keysOf_cons, ih]
+
+mutual
+  theorem sorted_sortDeep : ∀ (w : V), NodupV w → SortedV (sortDeep w)
+    | .null, _ => by simp [sortDeep, SortedV]
+    | .bool _, _ => by simp [sortDeep, SortedV]
+    | .num _, _ => by simp [sortDeep, SortedV]
+    | .str _, _ => by simp [sortDeep, SortedV]
+    | .arr xs, h => by
+      simp only [sortDeep, SortedV]
+      exact sorted_sortDeepList xs (by simpa [NodupV] using h)
+    | .obj fs, h => by
+      simp only [NodupV] at h
+      simp only [sortDeep, SortedV]
+      refine ⟨chain_sortFields _ (by rw [keysOf_sortDeepFields]; exact h.1), ?_⟩
+      rw [sortedFs_iff]
+      intro f hf
+      rw [mem_sortFields] at hf
+      exact (sortedFs_iff _).1 (sorted_sortDeepFields fs h.2) f hf
+  theorem sorted_sortDeepList : ∀ (xs : List V), NodupL xs → SortedL (sortDeepList xs)
+    | [], _ => by simp [sortDeepList, SortedL]
+    | x :: xs, h => by
+      simp only [NodupL] at h
+      simp only [sortDeepList, SortedL]
+      exact ⟨sorted_sortDeep x h.1, sorted_sortDeepList xs h.2⟩
+  theorem sorted_sortDeepFields : ∀ (fs : List (Str × V)), NodupFs fs → SortedFs (sortDeepFields fs)
+    | [], _ => by simp [sortDeepFields, SortedFs]
+    | (k, x) :: fs, h => by
+      simp only [NodupFs] at h
+      simp only [sortDeepFields, SortedFs]
+      exact ⟨sorted_sortDeep x h.1, sorted_sortDeepFields fs h.2⟩
+end
+
+mutual
+  theorem nodup_collapseDeep : ∀ (v : V), NodupV (collapseDeep v)
+    | .null => by simp [collapseDeep, NodupV]
+    | .bool _ => by simp [collapseDeep, NodupV]
+    | .num _ => by simp [collapseDeep, NodupV]
+    | .str _ => by simp [collapseDeep, NodupV]
+    | .arr xs => by simp only [collapseDeep, NodupV]; exact nodup_collapseDeepList xs
+    | .obj fs => by
+      simp only [collapseDeep, NodupV]
+      refine ⟨nodup_collapseInto _ [] (by simp [keysOf]), ?_⟩
+      rw [nodupFs_iff]
+      intro f hf
+      rcases mem_collapseInto _ _ f hf with h | h
+      · simp at h
+      · exact (nodupFs_iff _).1 (nodup_collapseDeepFields fs) f h
+  theorem nodup_collapseDeepList : ∀ (xs : List V), NodupL (collapseDeepList xs)
+    | [] => by simp [collapseDeepList, NodupL]
+    | x :: xs => by simp only [collapseDeepList, NodupL]; exact ⟨nodup_collapseDeep x, nodup_collapseDeepList xs⟩
+  theorem nodup_collapseDeepFields : ∀ (fs : List (Str × V)), NodupFs (collapseDeepFields fs)
+    | [] => by simp [collapseDeepFields, NodupFs]
+    | (k, x) :: fs => by
+      simp only [collapseDeepFields, NodupFs]; exact ⟨nodup_collapseDeep x, nodup_collapseDeepFields fs⟩
+end
+
+mutual
+  theorem nodup_owned : ∀ (w : V), NodupV w → NodupV (owned w)
+    | .null, _ => by simp [owned, NodupV]
+    | .bool _, _ => by simp [owned, NodupV]
+    | .num _, _ => by simp [owned, NodupV]
+    | .str _, _ => by simp [owned, NodupV]
+    | .arr xs, h => by simp only [owned, NodupV] at h ⊢; exact nodup_ownedList xs h
+    | .obj fs, h => by
+      simp only [NodupV] at h
+      simp only [owned, NodupV]
+      exact ⟨by rw [keysOf_ownedFields]; exact h.1, nodup_ownedFields fs h.2⟩
+  theorem nodup_ownedList : ∀ (xs : List V), NodupL xs → NodupL (ownedList xs)
+    | [], _ => by simp [ownedList, NodupL]
+    | x :: xs, h => by
+      simp only [NodupL] at h
+      simp only [ownedList, NodupL]; exact ⟨nodup_owned x h.1, nodup_ownedList xs h.2⟩
+  theorem nodup_ownedFields : ∀ (fs : List (Str × V)), NodupFs fs → NodupFs (ownedFields fs)
+    | [], _ => by simp [ownedFields, NodupFs]
+    | (k, x) :: fs, h => by
+      simp only [NodupFs] at h
+      simp only [ownedFields, NodupFs]; exact ⟨nodup_owned x h.1, nodup_ownedFields fs h.2⟩
+end
+
+
+/-! ### well-formedness is kept by the routes' preparation -/
+
+mutual
+  theorem wf_collapseDeep : ∀ (v : V), v.wf = true → (collapseDeep v).wf = true
+    | .null, _ => by simp [collapseDeep, V.wf]
+    | .bool _, _ => by simp [collapseDeep, V.wf]
+    | .num _, h => by simpa [collapseDeep] using h
+    | .str _, h => by simpa [collapseDeep] using h
+    | .arr xs, h => by
+      simp only [V.wf] at h
+      simp only [collapseDeep, V.wf]; exact wf_collapseDeepList xs h
+    | .obj fs, h => by
+      simp only [V.wf] at h
+      simp only [collapseDeep, V.wf]
+      rw [wfFields_iff]
+      intro f hf
+      rcases mem_collapseInto _ _ f hf with h' | h'
+      · simp at h'
+      · exact (wfFields_iff _).1 (wf_collapseDeepFields fs h) f h'
+  theorem wf_collapseDeepList : ∀ (xs : List V), wfList xs = true → wfList (collapseDeepList xs) = true
+    | [], _ => by simp [collapseDeepList, wfList]
+    | x :: xs, h => by
+      simp only [wfList, Bool.and_eq_true] at h
+      simp only [collapseDeepList, wfList, Bool.and_eq_true]
+      exact ⟨wf_collapseDeep x h.1, wf_collapseDeepList xs h.2⟩
+  theorem wf_collapseDeepFields : ∀ (fs : List (Str × V)), wfFields fs = true → wfFields (collapseDeepFields fs) = true
+    | [], _ => by simp [collapseDeepFields, wfFields]
+    | (k, x) :: fs, h => by
+      simp only [wfFields, Bool.and_eq_true] at h
+      simp only [collapseDeepFields, wfFields, Bool.and_eq_true]
+      exact ⟨⟨h.1.1, wf_collapseDeep x h.1.2⟩, wf_collapseDeepFields fs h.2⟩
+end
+
+mutual
+  theorem wf_owned : ∀ (w : V), w.wf = true → (owned w).wf = true
+    | .null, _ => by simp [owned, V.wf]
+    | .bool _, _ => by simp [owned, V.wf]
+    | .num _, h => by simpa [owned] using h
+    | .str _, _ => by simp [owned, V.wf, Str.wf]
+    | .arr xs, h => by
+      simp only [V.wf] at h
+      simp only [owned, V.wf]; exact wf_ownedList xs h
+    | .obj fs, h => by
+      simp only [V.wf] at h
+      simp only [owned, V.wf]; exact wf_ownedFields fs h
+  theorem wf_ownedList : ∀ (xs : List V), wfList xs = true → wfList (ownedList xs) = true
+    | [], _ => by simp [ownedList, wfList]
+    | x :: xs, h => by
+      simp only [wfList, Bool.and_eq_true] at h
+      simp only [ownedList, wfList, Bool.and_eq_true]
+      exact ⟨wf_owned x h.1, wf_ownedList xs h.2⟩
+  theorem wf_ownedFields : ∀ (fs : List (Str × V)), wfFields fs = true → wfFields (ownedFields fs) = true
+    | [], _ => by simp [ownedFields, wfFields]
+    | (k, x) :: fs, h => by
+      simp only [wfFields, Bool.and_eq_true] at h
+      simp only [ownedFields, wfFields, Bool.and_eq_true]
+      exact ⟨⟨by simp [Str.wf], wf_owned x h.1.2⟩, wf_ownedFields fs h.2⟩
+end
+
+mutual
+  theorem wf_sortDeep : ∀ (w : V), w.wf = true → (sortDeep w).wf = true
+    | .null, _ => by simp [sortDeep, V.wf]
+    | .bool _, _ => by simp [sortDeep, V.wf]
+    | .num _, h => by simpa [sortDeep] using h
+    | .str _, h => by simpa [sortDeep] using h
+    | .arr xs, h => by
+      simp only [V.wf] at h
+      simp only [sortDeep, V.wf]; exact wf_sortDeepList xs h
+    | .obj fs, h => by
+      simp only [V.wf] at h
+      simp only [sortDeep, V.wf]
+      rw [wfFields_iff]
+      intro f hf
+      rw [mem_sortFields] at hf
+      exact (wfFields_iff _).1 (wf_sortDeepFields fs h) f hf
+  theorem wf_sortDeepList : ∀ (xs : List V), wfList xs = true → wfList (sortDeepList xs) = true
+    | [], _ => by simp [sortDeepList, wfList]
+    | x :: xs, h => by
+      simp only [wfList, Bool.and_eq_true] at h
+      simp only [sortDeepList, wfList, Bool.and_eq_true]
+      exact ⟨wf_sortDeep x h.1, wf_sortDeepList xs h.2⟩
+  theorem wf_sortDeepFields : ∀ (fs : List (Str × V)), wfFields fs = true → wfFields (sortDeepFields fs) = true
+    | [], _ => by simp [sortDeepFields, wfFields]
+    | (k, x) :: fs, h => by
+      simp only [wfFields, Bool.and_eq_true] at h
+      simp only [sortDeepFields, wfFields, Bool.and_eq_true]
+      exact ⟨⟨h.1.1, wf_sortDeep x h.1.2⟩, wf_sortDeepFields fs h.2⟩
+end
+
+theorem wf_prep (o : Opts) (r : Route) (v : V) (hv : v.wf = true) : (o.prep r v).wf = true := by
+  cases r <;> simp only [Opts.prep]
+  · split
+    · exact hv
+    · exact wf_collapseDeep v hv
+  · split
+    · exact hv
+    · exact wf_collapseDeep v hv
+  · exact wf_owned _ (wf_collapseDeep v hv)
+  · split
+    · exact wf_sortDeep _ (wf_owned _ (wf_collapseDeep v hv))
+    · exact wf_owned _ (wf_collapseDeep v hv)
+
+
 end SV.JqOut
